@@ -483,7 +483,15 @@ impl RateLimiter {
 
         // We add `new` to `capacity`, subtract one for returning `true` from here,
         // then make sure it does not exceed a maximum of `MAX_BURST`, then store it.
-        self.capacity = Ord::min(MAX_BURST as u128, (self.capacity as u128) + new - 1) as u8;
+        let capacity = (self.capacity as u128) + new - 1;
+        if capacity >= MAX_BURST as u128 {
+            // A full bucket does not hold a fraction of a token on top: without this, a burst
+            // after an idle period could be one frame larger than `MAX_BURST` plus the rate.
+            self.capacity = MAX_BURST;
+            self.prev = now;
+            return true;
+        }
+        self.capacity = capacity as u8;
         // Store `prev` for the next iteration after subtracting the `remainder`.
         // Just use `unwrap` here because it shouldn't be possible for this to underflow.
         self.prev = now
